@@ -84,6 +84,15 @@ Theorem C07_memory : forall prog d res,
 Proof. exact value_mem. Qed.
 Print Assumptions C07_memory.
 
+(* 6. _finalize drives every conditionally assigned target exactly once (and nothing else), in
+      first-assignment order (the insertion order of _predicate_map). *)
+Theorem C07_one_driver_per_target : forall prog d res,
+  elab prog d = Some res ->
+  map fst res = assigned prog /\ NoDup (map fst res) /\
+  (forall l, In l (map fst res) <-> In l (map fst (slits prog))).
+Proof. exact one_driver_per_target. Qed.
+Print Assumptions C07_one_driver_per_target.
+
 (* ---- non-vacuity: the docstring example of conditional.py extended with a memory, a nested
    otherwise and a chain restarted after an otherwise *)
 Definition ex_prog : list ctree :=
